@@ -105,8 +105,8 @@ def run(chk):
     mm = evolve.load()
     sysm = evolve.systematic(mm)
     if chk.tier == "quick":
-        k = chk.seed % (len(sysm) - 1)
-        models = [sysm[1 + k]]                      # one systematic family, rotating with the seed (identity is C05's subject)
+        k = chk.seed % (len(sysm) - 2)
+        models = [sysm[1], sysm[2 + k]]             # the combined "core" model + one systematic family rotating with the seed
         m, log = evolve.random_model(mm, rng, rng.choice([3, 5, 8]))
         models.append(("random-%d" % chk.seed, m))
         checks = QUICK_CHECKS
